@@ -327,6 +327,31 @@ theorem handshake_sound (ipLit : Str → Option Str) (cert : Cert) (name : Str) 
 
 example : handshakeRc (checkName (ipLit true) ⟨[.dns [97,0,98]], []⟩ [97]) = (-1, "nul-san") := by decide
 
+/-- THE PEER QUERY DEPENDS ON NOTHING BUT (RECORDED CERTIFICATE, QUERIED NAME): a "yes" of
+    `tls_peer_cert_contains_name` on a live connection means that a certificate was recorded
+    and that it covers the queried name by the rules — whatever name was passed to
+    `tls_connect*`, whether `verify_name` was on, and whatever state the handshake is in
+    (`peerContains` has no such arguments); in particular with verification off a completed
+    handshake proves nothing about the connected name. -/
+theorem peer_query_sound (ipLit : Str → Option Str) (peer : Option Cert) (q : Str)
+    (h : peerContains ipLit peer q = true) : ∃ c, peer = some c ∧ Covers ipLit c q := by
+  cases peer with
+  | none => simp [peerContains] at h
+  | some c => exact ⟨c, rfl, contains_sound ipLit c q (by simpa [peerContains] using h)⟩
+
+/-- … and every covered name is answered "yes" (no malicious dNSName in the way). -/
+theorem peer_query_complete (ipLit : Str → Option Str) (c : Cert) (q : Str)
+    (hc : Covers ipLit c q) (hclean : ipLit q = none → CleanSans c.sans) :
+    peerContains ipLit (some c) q = true := by
+  simp [peerContains, containsName, complete ipLit c q hc hclean]
+
+-- verify_name off: the handshake for "x" completes against a certificate for "a"; asked about
+-- "x" (the connected name) the answer is no, about "a" yes; malicious "a\0b": no for "a"
+example : handshakeCfg false (checkName (ipLit true) ⟨[.dns [97]], []⟩ [120]) = (0, "none") ∧
+    peerContains (ipLit true) (recordedPeer 0 ⟨[.dns [97]], []⟩) [120] = false ∧
+    peerContains (ipLit true) (recordedPeer 0 ⟨[.dns [97]], []⟩) [97] = true ∧
+    peerContains (ipLit true) (recordedPeer 0 ⟨[.dns [97,0,98]], []⟩) [97] = false := by decide
+
 /-- helper: from a state that is not falsely "complete", every call of a script gives the same
     answer, fixed by the verdict of the name check -/
 theorem runCalls_const (r : Res) : ∀ (calls : List Call) (c : Client),
